@@ -113,6 +113,7 @@ class _Scope:
         self.buffers, self.rows, self.caches, self.zrows = set(), set(), {"_CHAR_CACHE"}, set()
         self.assigns = {}      # name -> [value expr]
         self.problems, self.sites, self.classes, self.item_cells = [], [], [], set()
+        self.class_rows = []
 
     def is_buffer(self, e):
         return (isinstance(e, ast.Attribute) and e.attr == "data_buffer") or \
@@ -260,6 +261,8 @@ class _Scope:
         cls, why = self.classify_text(a, None)
         if cls:
             self.classes.append((cls, _u(a)))
+            # (class, text): the VALUE of a literal (its control-freeness is re-proved in Coq), else the source expression
+            self.class_rows.append((cls, a.value if cls == "literal" else _u(a)))
             return None
         return why
 
@@ -390,6 +393,7 @@ def scan(repo=None):
     root = repo + "/src/prompt_toolkit"
     problems, sites = [], []
     scan.classes = []
+    scan.class_rows = []
     files = sorted(glob.glob(root + "/layout/*.py"))
     if len(files) < 10:
         return ["layout/*.py not found under %s" % root], []
@@ -406,6 +410,7 @@ def scan(repo=None):
             problems += sc.problems
             sites += sc.sites
             scan.classes += sc.classes
+            scan.class_rows += sc.class_rows
         # module level code must not touch screens
         for n in tree.body:
             if not isinstance(n, (ast.FunctionDef, ast.AsyncFunctionDef, ast.ClassDef)):
@@ -509,6 +514,77 @@ def scan(repo=None):
     return problems, sites
 
 
+CLASS_CODE = {"literal": 0, "char": 1, "merge": 2, "restyle": 3, "reviewed": 4}
+
+# output/vt100.py Vt100_Output: everything that reaches the buffer.  kinds of a write_raw argument:
+#   0 string literal   1 "<literal with %i>" % ints   2 escape_code_cache[attrs] (SGR, C19)
+#   4 set_title's format of the title with ESC and BEL removed (application data)
+VT_WRITE_BODY = "self._buffer.append(data.replace('\\x1b', '?'))"
+VT_WRITE_RAW_BODY = "self._buffer.append(data)"
+VT_TITLE_ARG = "'\\x1b]2;{}\\x07'.format(title.replace('\\x1b', '').replace('\\x07', ''))"
+VT_BUFFER_METHODS = {"__init__", "write_raw", "write", "flush"}
+
+
+def scan_vt100(repo=None):
+    """-> (problems, rows); rows = (method, kind, text)"""
+    repo = (repo or REPO).rstrip("/")
+    path = repo + "/src/prompt_toolkit/output/vt100.py"
+    problems, rows = [], []
+    try:
+        tree = ast.parse(open(path, encoding="utf-8").read())
+    except OSError:
+        return ["output/vt100.py not found"], []
+    cls = [n for n in tree.body if isinstance(n, ast.ClassDef) and n.name == "Vt100_Output"]
+    if len(cls) != 1:
+        return ["output/vt100.py: class Vt100_Output not found"], []
+    methods = {m.name: m for m in cls[0].body if isinstance(m, (ast.FunctionDef, ast.AsyncFunctionDef))}
+
+    def body_is(name, text):
+        m = methods.get(name)
+        if m is None:
+            return False
+        stmts = [x for x in m.body if not (isinstance(x, ast.Expr) and isinstance(x.value, ast.Constant))]
+        return len(stmts) == 1 and _u(stmts[0]) == text
+    if not body_is("write", VT_WRITE_BODY):
+        problems.append("vt100.py Vt100_Output.write is no longer `%s`" % VT_WRITE_BODY)
+    if not body_is("write_raw", VT_WRITE_RAW_BODY):
+        problems.append("vt100.py Vt100_Output.write_raw is no longer `%s`" % VT_WRITE_RAW_BODY)
+    for name, m in methods.items():
+        for n in ast.walk(m):
+            if isinstance(n, ast.Attribute) and n.attr == "_buffer" and name not in VT_BUFFER_METHODS:
+                problems.append("vt100.py line %d: Vt100_Output.%s touches self._buffer directly" % (n.lineno, name))
+            if not (isinstance(n, ast.Call) and isinstance(n.func, ast.Attribute) and n.func.attr in ("write_raw", "write")):
+                continue
+            if _u(n.func.value) != "self":
+                continue        # some other object's write (flush_stdout's stdout is in output/flush_stdout.py)
+            if n.func.attr == "write":
+                problems.append("vt100.py line %d: Vt100_Output.%s calls self.write(..)" % (n.lineno, name))
+                continue
+            a = n.args[0] if len(n.args) == 1 and not n.keywords else None
+            if isinstance(a, ast.Constant) and isinstance(a.value, str):
+                rows.append((name, 0, a.value))
+            elif isinstance(a, ast.BinOp) and isinstance(a.op, ast.Mod) and isinstance(a.left, ast.Constant) and isinstance(a.left.value, str):
+                fmt = a.left.value
+                if fmt.replace("%i", "").count("%"):
+                    problems.append("vt100.py line %d: format %r has a conversion other than %%i" % (n.lineno, fmt))
+                rows.append((name, 1, fmt))
+            elif a is not None and _u(a) == "escape_code_cache[attrs]" and name == "set_attributes":
+                rows.append((name, 2, ""))
+            elif a is not None and name == "set_title" and _u(a) == VT_TITLE_ARG:
+                rows.append((name, 4, "\x1b]2;{}\x07"))
+            elif isinstance(a, ast.Call) and isinstance(a.func, ast.Attribute) and a.func.attr == "get" and isinstance(a.func.value, ast.Dict) \
+                    and all(isinstance(v, ast.Constant) and isinstance(v.value, str) for v in a.func.value.values) \
+                    and len(a.args) == 2 and isinstance(a.args[1], ast.Constant) and isinstance(a.args[1].value, str):
+                for v in a.func.value.values:
+                    rows.append((name, 0, v.value))
+                rows.append((name, 0, a.args[1].value))
+            else:
+                problems.append("vt100.py line %d: Vt100_Output.%s: unreviewed raw write `%s`" % (n.lineno, name, _u(n)[:100]))
+    if len(rows) < 30:
+        problems.append("vt100.py: only %d write_raw call sites recognised in Vt100_Output (expected >= 30)" % len(rows))
+    return problems, rows
+
+
 def t_C10_DisplayMappings():
     from prompt_toolkit.layout.screen import Char
     dm = Char.display_mappings
@@ -523,6 +599,8 @@ def t_C10_DisplayMappings():
                 "is modelled for single-character keys)" % (k,))
         rows.append("(%d, %s)" % (ord(k), zstr(v)))
     problems, sites = scan()
+    vt_problems, vt_rows = scan_vt100()
+    problems = problems + vt_problems
     for pr in problems:
         sys.stderr.write("gen_t_c10: structural side condition failed: " + pr + "\n")
     from prompt_toolkit.input.ansi_escape_sequences import ANSI_SEQUENCES
@@ -544,13 +622,22 @@ def t_C10_DisplayMappings():
             "Definition readline_listing_mapped : bool := %s.\n\n"
             "(* input/ansi_escape_sequences.py ANSI_SEQUENCES: every key of more than one character,\n"
             "   with utils.get_cwidth of it (the data a multi-character key press can carry) *)\n"
-            "Definition key_sequences : list (list Z * Z) :=\n  [%s].\n"
+            "Definition key_sequences : list (list Z * Z) :=\n  [%s].\n\n"
+            "(* the text argument of every Char(..)/_CHAR_CACHE[..] stored into a screen cell: (class, text) with class\n"
+            "   0 literal (text = its value), 1 char, 2 merge, 3 restyle, 4 reviewed (text = the source expression) *)\n"
+            "Definition cell_text_sites : list (Z * list Z) :=\n  [%s].\n\n"
+            "(* output/vt100.py Vt100_Output: the argument of every self.write_raw(..): (method, kind, text) with kind\n"
+            "   0 literal, 1 literal %% ints (only %%i conversions), 2 escape_code_cache[attrs], 4 set_title's format;\n"
+            "   write / write_raw bodies and direct uses of self._buffer are checked by the scan *)\n"
+            "Definition vt100_raw_sites : list (list Z * Z * list Z) :=\n  [%s].\n"
             % (len(sites), len(problems),
                "".join("\n   - " + pr.replace("*)", "* )").replace("(*", "( *") for pr in problems[:10]),
                "false" if problems else "true",
                ", ".join("%s %d" % kv for kv in sorted(cls.items())), cls.get("reviewed", 0),
                "true" if getattr(scan, "readline_mapped", False) else "false",
-               ";\n   ".join(seqs)))
+               ";\n   ".join(seqs),
+               ";\n   ".join("(%d, %s)" % (CLASS_CODE[c], zstr(t)) for c, t in getattr(scan, "class_rows", [])),
+               ";\n   ".join("(%s, %d, %s)" % (zstr(m), k, zstr(t)) for m, k, t in vt_rows)))
     return emit("C10_DisplayMappings", body)
 
 
@@ -558,6 +645,10 @@ TABLES = {"C10_DisplayMappings": t_C10_DisplayMappings}
 
 if __name__ == "__main__":
     pr, st = scan(sys.argv[1] if len(sys.argv) > 1 else None)
+    vp, vr = scan_vt100(sys.argv[1] if len(sys.argv) > 1 else None)
+    pr += vp
+    for r in vr:
+        print("vt100", r)
     for s in st:
         print("site", s)
     for p in pr:
